@@ -27,7 +27,12 @@ class IQExec(Exec):
         from mpservice.queue import IterableQueue
         cfg = self.cfg
         m, n = cfg['m'], cfg['n']
-        iq = IterableQueue(queue.Queue(cfg['maxsize']), num_suppliers=m)
+        if cfg.get('mp'):
+            # with `to_stop` the class keeps its token queues in multiprocessing queues even for thread use:
+            # here they are simulated multiprocessing queues (per-process buffer + feeder thread + pipe)
+            iq = IterableQueue(queue.Queue(cfg['maxsize']), num_suppliers=m, to_stop=threading.Event())
+        else:
+            iq = IterableQueue(queue.Queue(cfg['maxsize']), num_suppliers=m)
         rounds = []
         for rnd in range(cfg['rounds']):
             got = [[] for _ in range(n)]
@@ -69,7 +74,7 @@ class IQExec(Exec):
         leftover = []
         try:
             while True:
-                leftover.append(iq._q.get_nowait())
+                leftover.append(iq._q.get(block=False))
         except queue.Empty:
             pass
         return rounds, leftover
@@ -118,6 +123,28 @@ class IQH(Harness):
 
     def new(self, cfg):
         return IQExec(cfg)
+
+
+class IQMPH(IQH):
+    """the same with the token queues in (simulated) multiprocessing queues, as the class chooses when `to_stop` is given"""
+    name = 'iq_mp'
+    opts = dict(max_points=6000, timers='free', max_timer_fires=300)
+
+    def setup(self):
+        from mc import simproc
+        simproc.install()
+        import mpservice.multiprocessing as M
+        M.Queue = simproc.SimMPQueue
+        return IQH.setup(self)
+
+    def configs(self, tier):
+        quick = tier == 'quick'
+        out = []
+        for m, n, items, maxsize, d in ((1, 2, 1, 0, 1), (2, 2, 1, 0, 1), (2, 1, 1, 1, 1)):
+            if not quick:
+                d += 1
+            out.append(dict(m=m, n=n, items=items, maxsize=maxsize, rounds=2, mp=True, bound=d, cap=80000 if quick else 800000))
+        return out
 
 
 class RQExec(Exec):
@@ -278,5 +305,5 @@ class RQ2H(Harness):
         return RQ2Exec(cfg)
 
 
-HARNESSES = {'iq': IQH, 'responsive': RQH, 'responsive2': RQ2H}
-PLAN = {'quick': ['iq', 'responsive', 'responsive2'], 'thorough': ['iq', 'responsive', 'responsive2']}
+HARNESSES = {'iq': IQH, 'iq_mp': IQMPH, 'responsive': RQH, 'responsive2': RQ2H}
+PLAN = {'quick': ['iq', 'iq_mp', 'responsive', 'responsive2'], 'thorough': ['iq', 'iq_mp', 'responsive', 'responsive2']}
